@@ -19,6 +19,7 @@ EXPLANATION = (
     "15:8 of each word, PUTN prints R0 reinterpreted as i16. R7 (DOM): in PUTS/PUTSP every print is dominated by a zero test on the printed "
     "character whose zero side prints nothing more, and the only other exit of the printing loop is the exhausted address range."
     ' R6/R7 read PUTS/PUTSP either off the loop or off an iterator chain (source.map.flat_map.take_while.for_each) whose closures are composed symbolically. R5 also: read_char hands every 7-bit input byte on unchanged (its decision is evaluated on the 128 values).'
+    " R5 also: what the GETC and IN arms store into R0 is the character read, widened - not merged with the old contents of R0."
 )
 
 NOT_DECIDED = ("the executed sequence and exact stdout for all images and inputs (UTF-8 re-encoding of bytes >= 0x80 is value-level)")
@@ -444,6 +445,29 @@ def run(ctx):
         ctx.oblig(ok, {nm: "one read_char on every path"}, "single call dominating the arm's exits, not in a loop")
         if not ok:
             ctx.violation("input-bytes|%s" % nm, sp_file_line(tr.term(tg[vec]).get("sp")), "%s does not read exactly one input byte on every path (%d read_char calls)" % (nm, len(rc)))
+    # ... and that byte is all of R0 afterwards: what the arm stores into R0 is the character read, widened - not merged with what R0 held
+    for vec, nm in ((0x20, "GETC"), (0x23, "IN")):
+        reg = kit.dominated_region(tr, tg[vec])
+        stores = []
+        for b, t, c in tr.calls():
+            if b in reg and c and c.endswith("RunState::reg_mut") and len(t["args"]) == 2 and const_int(t["args"][1]) == 0:
+                for b2, i2, s2 in tr.assigns():
+                    if s2["p"].get("pr") == ["*"] and s2["p"]["l"] == t["dest"]["l"]:
+                        stores.append((b2, s2))
+        ctx.instance(1)
+        okv, shown = bool(stores), "no store into R0"
+        for b2, s2 in stores:
+            v_ = kit.strip_casts(tr.rvalue_expr(s2["r"], 12))
+            for _ in range(4):
+                if v_[0] == "call" and re.search(r"convert::(num::)?<impl core::convert::From<\w+> for \w+>::from$|convert::Into<\w+>>::into$", str(v_[1])) and len(v_[2]) == 1:
+                    v_ = kit.strip_casts(v_[2][0])
+            shown = expr_str(v_, 80)
+            okv = okv and v_[0] == "call" and str(v_[1]) == RT + "read_char"
+        ctx.oblig(okv, {nm: "R0 := %s" % shown}, "the character read, widened")
+        if not okv:
+            ctx.violation("input-value-merged|%s" % nm, sp_file_line(tr.term(tg[vec]).get("sp")),
+                          "%s stores `%s` into R0, not the character that was read: bits 15:8 of R0 must be zero after an input trap (a program that "
+                          "compares R0 with a character constant sees the old high byte)" % (nm, shown))
     # the character handed to GETC/IN is the byte that was read: read_char's decision on the byte is evaluated for every 7-bit value
     # (the 128 bytes every terminal and every piped script can deliver; what becomes of a byte >= 0x80 is lace's own choice)
     rcf = ctx.fn(RT + "read_char")
